@@ -187,6 +187,10 @@ func checkNullSkip(c *core.Ctx, rel, fname string, ids map[string]int64) {
 				if retract {
 					op = "-"
 				}
+				// x + -1 and x - 1 are the same step (a signed delta variable is a common way to write it)
+				for i := range sizeUpd {
+					sizeUpd[i] = strings.ReplaceAll(strings.ReplaceAll(sizeUpd[i], " + -1)", " - 1)"), " - -1)", " + 1)")
+				}
 				if len(sizeUpd) != 1 || !strings.HasSuffix(sizeUpd[0], " "+op+" 1)") || !strings.HasPrefix(sizeUpd[0], "(SIZES[") {
 					bad = fmt.Sprintf("a non-NULL input must move AggregatedSetSize[i] by %s1 exactly once; updates: %v", op, sizeUpd)
 				} else if len(adds) != 1 {
